@@ -5,7 +5,7 @@
    program terms* produces exactly the let-terms of those theorems. *)
 From Coq Require Import ZArith List Bool String Reals Lia Lra.
 From Flocq Require Import Core Pff Pff2Flocq Pff2FlocqAux Mult_error Plus_error.
-From FpyV Require Import Num.RealFloat Lib.Eft.
+From FpyV Require Import Num.RealFloat Lib.Eft Lib.EftReal.
 Import ListNotations.
 Open Scope R_scope.
 Open Scope string_scope.
